@@ -14,6 +14,7 @@ import (
 	"math"
 	"reflect"
 	"sort"
+	"time"
 	"unsafe"
 
 	stackage "github.com/JesseCoretta/go-stackage"
@@ -56,7 +57,6 @@ func collectMethods(val any, ptr any, owner string) []methodRef {
 	sort.Slice(out, func(i, j int) bool { return out[i].Name < out[j].Name })
 	return out
 }
-
 
 // ---- awkward value catalogue (DESIGN.md 2.2) --------------------------------------
 
@@ -124,12 +124,40 @@ var awkwardCatalogue = []awkward{
 	{"array-of-nil-ptr", func() any { return [2]*string{} }},
 	{"slice-of-any-nil", func() any { return []any{nil} }},
 	{"ptr-to-slice-of-nil-ptr", func() any { s := []*int{nil}; return &s }},
+	// methods promoted through a nil embedded field: the method exists, calling it dereferences nil
+	{"struct-embedding-nil-Stringer", func() any { return struct{ fmt.Stringer }{} }},
+	{"struct-embedding-nil-*strLeaf", func() any { return struct{ *strLeaf }{} }},
+	{"struct-embedding-nil-error", func() any { return struct{ error }{} }},
+	{"struct-embedding-nil-Operator", func() any { return struct{ stackage.Operator }{} }},
+	{"struct-embedding-zero-Stack", func() any { return struct{ stackage.Stack }{} }},
+	// (a NON-zero value whose promoted method dereferences nil - e.g. a pointer to such a struct, or such a
+	// struct in the Operator position - is user code that panics when called, not the library's business)
+	// zero and non-zero values of types with a String method
+	{"zero-struct-stringer", func() any { return strLeaf{} }},
+	{"zero-int-stringer", func() any { return intStringer(0) }},
+	{"int-stringer", func() any { return intStringer(5) }},
+	{"zero-duration", func() any { return time.Duration(0) }},
+	{"zero-time", func() any { return time.Time{} }},
+	// operators of an uncomparable Go type, values at numeric and size boundaries
+	{"slice-operator", func() any { return sliceOp{"~", "ctx"} }},
+	{"nil-slice-operator", func() any { return sliceOp(nil) }},
+	{"byte-array", func() any { return [4]byte{1, 2, 3, 4} }},
+	{"byte-slice", func() any { return []byte("abc") }},
+	{"ptr-byte-array", func() any { return &[3]byte{1, 2, 3} }},
+	{"empty-array", func() any { return [0]int{} }},
+	{"max-uint64", func() any { return uint64(math.MaxUint64) }},
+	{"top-bit-uint", func() any { return uint(1) << 63 }},
+	{"min-int64", func() any { return int64(math.MinInt64) }},
+	{"one-member-any-slice", func() any { return []any{"only"} }},
+	{"nested-one-member-any-slice", func() any { return []any{[]any{"only"}} }},
 	{"plain-string", func() any { return "plain" }},
 	{"plain-int", func() any { return 3 }},
 	// values that are meaningful to setters taking `any` (loggers, log levels, delimiters, symbols, encapsulation)
 	{"marshal-condition-row", func() any { return []any{"CONDITION", "k", stackage.Eq, "v"} }},
 	{"marshal-stack-envelope", func() any { return []any{"AND", "x", 1} }},
-	{"marshal-nested-envelope", func() any { return []any{"or", []any{"LIST", "a"}, []any{"condition", "kw", stackage.Ne, []any{"NOT", "z"}}} }},
+	{"marshal-nested-envelope", func() any {
+		return []any{"or", []any{"LIST", "a"}, []any{"condition", "kw", stackage.Ne, []any{"NOT", "z"}}}
+	}},
 	{"logger-name-stderr", func() any { return "stderr" }},
 	{"logger-int-2", func() any { return 2 }},
 	{"logger-ptr", func() any { return log.New(io.Discard, "x", 0) }},
@@ -168,8 +196,9 @@ var (
 type synthCtx struct {
 	Len       int
 	Variant   int
-	SmallInts bool // capacities for constructors: absurd sizes are a resource question, not a property
-	calls   *int // incremented by synthesised closures when they are invoked
+	ForceAny  string // name of the catalogue entry to use for every `any` parameter ("" = pick by hash)
+	SmallInts bool   // capacities for constructors: absurd sizes are a resource question, not a property
+	calls     *int   // incremented by synthesised closures when they are invoked
 }
 
 func intChoices(l int) []int {
@@ -185,14 +214,40 @@ func mixChoice(k, i, n int) int {
 	return int(h % uint32(n))
 }
 
+// pickAwkward chooses a catalogue entry for k by rendezvous hashing over the entry NAMES (highest
+// hash wins): the choice for a given k only changes when an entry that beats the current winner is
+// added or the winner is removed, so saved replay cases keep their meaning when the catalogue grows.
+func pickAwkward(k, from int) awkward {
+	best, bi := uint32(0), from
+	for i := from; i < len(awkwardCatalogue); i++ {
+		h := uint32(k)*2654435761 + 97
+		for _, c := range []byte(awkwardCatalogue[i].Name) {
+			h = (h ^ uint32(c)) * 16777619
+		}
+		h ^= h >> 15
+		h *= 2246822519
+		h ^= h >> 13
+		if h >= best {
+			best, bi = h, i
+		}
+	}
+	return awkwardCatalogue[bi]
+}
+
 // synthValue builds one argument of type t. k selects among the choices.
 func synthValue(t reflect.Type, k int, ctx *synthCtx) (reflect.Value, string) {
 	switch {
 	case t == tAny:
-		a := awkwardCatalogue[posMod(k, len(awkwardCatalogue))]
-		if (k>>8)%3 == 0 {
+		a := pickAwkward(k, 0)
+		if ctx != nil && ctx.ForceAny != "" {
+			for _, e := range awkwardCatalogue {
+				if e.Name == ctx.ForceAny {
+					a = e
+				}
+			}
+		} else if (k>>8)%3 == 0 {
 			// a third of the time: one of the values that mean something to a setter
-			a = awkwardCatalogue[meaningfulFrom+posMod(k, len(awkwardCatalogue)-meaningfulFrom)]
+			a = pickAwkward(k, meaningfulFrom)
 		}
 		v := a.Make()
 		if v == nil {
@@ -202,7 +257,7 @@ func synthValue(t reflect.Type, k int, ctx *synthCtx) (reflect.Value, string) {
 		rv.Set(reflect.ValueOf(v))
 		return rv, a.Name
 	case t == tOperator:
-		ops := []stackage.Operator{nil, stackage.Eq, stackage.ComparisonOperator(0), stackage.ComparisonOperator(99), userOp{"~", "c"}, userOp{"", ""}}
+		ops := []stackage.Operator{nil, stackage.Eq, stackage.ComparisonOperator(0), stackage.ComparisonOperator(99), userOp{"~", "c"}, userOp{"", ""}, sliceOp{"~", "ctx"}, sliceOp{"~", "ctx"}, sliceOp(nil)}
 		o := ops[posMod(k, len(ops))]
 		rv := reflect.New(t).Elem()
 		if o != nil {
@@ -281,6 +336,9 @@ func synthArgs(mt reflect.Type, skipRecv bool, ctx *synthCtx) ([]reflect.Value, 
 		if mt.IsVariadic() && i == n-1 {
 			et := pt.Elem()
 			cnt := posMod(k, 3) // 0..2 elements
+			if ctx.ForceAny != "" && cnt == 0 {
+				cnt = 1
+			}
 			if et.Kind() == reflect.Bool {
 				// tri-state setters: none / true / false
 				switch posMod(k, 3) {
